@@ -201,7 +201,15 @@ class Check:
                     full = os.path.join(d, name)
                     if os.path.islink(full):
                         if not os.path.exists(full):
-                            unreadable = True  # dangling or self-looping link
+                            # a dangling link (ENOENT) has an unreadable target: the status is left free. A self-loop or a
+                            # loop of non-directory links (ELOOP) is one of the link graphs the statement names: it is a
+                            # link to a non-directory, "simply listed", and makes nothing unreadable
+                            try:
+                                os.stat(full)
+                            except OSError as e:
+                                import errno as _errno
+                                if e.errno != _errno.ELOOP:
+                                    unreadable = True
                             continue
                         if case["follow"] and os.path.isdir(full):
                             t = os.path.realpath(full)
